@@ -85,6 +85,7 @@ def unary_ctors(nm: Namer) -> Dict[str, Callable[[T], T]]:
 
     return {
         "opt": lambda x: Opt(x),
+        "opt_rev": lambda x: Uni((NONE, x)),  # Union[None, T]: the same alternatives declared None first
         "list": lambda x: Coll("list", x),
         "seq": lambda x: Coll("seq", x),
         "set": lambda x: Coll("set", x),
@@ -318,8 +319,24 @@ def object_shapes(nm: Namer) -> Dict[str, Callable[[T, Ctx], Optional[T]]]:
         )
 
     def generic(x, c):
-        o = Obj("dataclass", nm("O"), (F("a", TVar("TV")), F("b", Coll("list", TVar("TV")), factory="list", default_value=[])), generic_params=("TV",))
+        # (o: the type variable inside a union, which typing re-parametrises on its own)
+        o = Obj(
+            "dataclass",
+            nm("O"),
+            (F("a", TVar("TV")), F("b", Coll("list", TVar("TV")), factory="list", default_value=[]), F("o", Opt(TVar("TV")), default="None", has_default=True, default_value=None)),
+            generic_params=("TV",),
+        )
         return Gen(o, (x,))
+
+    def class_validator(x, c):
+        # a class validator which reads two fields and never fails: outcomes are those of the class without it, whatever
+        # the data (validators run on partially valid data through a mock object)
+        return Obj(
+            "dataclass",
+            nm("O"),
+            (F("a_b", x, alias="x-a"), F("c", INT, default="0", has_default=True, default_value=0)),
+            extra_src="    @validator\n    def _chk(self):\n        _ = (self.a_b, self.c)",
+        )
 
     def ordered(x, c):
         # serialized in an order which is not the declaration order
@@ -402,6 +419,9 @@ def object_shapes(nm: Namer) -> Dict[str, Callable[[T, Ctx], Optional[T]]]:
                 nm("O"),
                 (F("a", x, cons=(("min", -2), ("max", 5))), F("b", x, default="0", has_default=True, default_value=0, cons=(("max", 5),))),
             )
+        if isinstance(rx, AnyT):
+            # numeric constraints at an Any position bear on numbers only (a boolean is not a number)
+            return Obj("dataclass", nm("O"), (F("a", x, cons=(("min", 2), ("mult_of", 2))),))
         if isinstance(rx, Tup):
             # an annotated fixed-size tuple (its schema node is rewritten by the older JSON Schema versions)
             return Obj("dataclass", nm("O"), (F("a", x, cons=(("max_items", 9),)),))
